@@ -13,10 +13,11 @@ import (
 
 // Env lazily loads repo modules for one check run.
 type Env struct {
-	overlay map[string][]byte
-	progs   map[string]*Program
-	models  map[string]*Model
-	Tier    string
+	overlay     map[string][]byte
+	progs       map[string]*Program
+	models      map[string]*Model
+	Tier        string
+	importDepth int
 }
 
 func (e *Env) Prog(mod string) *Program {
